@@ -110,5 +110,5 @@ def write(prop, tier, seed, results, verdict, monitors, wall, rc, units):
                   "compile-time metaprograms (which rows exist for a state/event and their order, state ids, region assignment, event-type matching) are outside any contract; they enter as symbolic constants / uninterpreted functions",
                   "user behaviours (guards, actions, entry/exit), std::deque, boost::circular_buffer, boost::function/bind, boost::any are assumed contracts"}),
               wall_s=round(wall, 2), violations=len(verdict['violations']) + (len(monitors['violations']) if monitors else 0))
-    with open(os.path.join(VERIF, 'evidence', prop + '.json'), 'w') as f:
+    with open(os.path.join(EVDIR, prop + '.json'), 'w') as f:
         json.dump(ev, f, indent=1)
